@@ -858,7 +858,7 @@ pub fn instantiate(plan: &Plan, ctx: &Arc<Ctx>, pool: Option<&Pool>) -> Dispatch
     }
     for (idx, it) in plan.items.iter().enumerate() {
         if let Item::Failed(k) = it {
-            failed_attempt(&mut b, &plan.items[..idx], *k, ctx);
+            failed_attempt(&mut b, &plan.items, idx, *k, ctx);
             continue;
         }
         register(&mut b, it, ctx, pool);
@@ -866,18 +866,101 @@ pub fn instantiate(plan: &Plan, ctx: &Arc<Ctx>, pool: Option<&Pool>) -> Dispatch
     b
 }
 
-/// An ill-formed `add` (it must panic), caught; the builder is used further.
-pub fn failed_attempt(b: &mut DispatcherBuilder<'static, 'static>, earlier: &[Item], kind: u8, ctx: &Arc<Ctx>) {
+/// A system whose own code panics while the builder inspects it (mode 2: `Accessor::reads`,
+/// 3: `Accessor::writes`, 4: `running_time`, 5: `accessor`). Up to that point it reports a real
+/// access set, so that whatever a builder keeps of a failed registration is visible afterwards.
+pub struct BadAcc {
+    pub reads: Vec<ResourceId>,
+    pub writes: Vec<ResourceId>,
+    pub mode: u8,
+}
+
+impl Accessor for BadAcc {
+    fn try_new() -> Option<Self> {
+        None
+    }
+    fn reads(&self) -> Vec<ResourceId> {
+        if self.mode == 2 {
+            std::panic::panic_any("INJECTED-PANIC in Accessor::reads of a system being registered".to_string());
+        }
+        self.reads.clone()
+    }
+    fn writes(&self) -> Vec<ResourceId> {
+        if self.mode == 3 {
+            std::panic::panic_any("INJECTED-PANIC in Accessor::writes of a system being registered".to_string());
+        }
+        self.writes.clone()
+    }
+}
+
+pub struct BadData;
+
+impl<'a> DynamicSystemData<'a> for BadData {
+    type Accessor = BadAcc;
+    fn setup(_: &BadAcc, _: &mut World) {}
+    fn fetch(_: &BadAcc, _: &'a World) -> Self {
+        BadData
+    }
+}
+
+pub struct BadSys {
+    pub acc: BadAcc,
+}
+
+impl<'a> System<'a> for BadSys {
+    type SystemData = BadData;
+    fn run(&mut self, _: BadData) {}
+    fn running_time(&self) -> RunningTime {
+        if self.acc.mode == 4 {
+            std::panic::panic_any("INJECTED-PANIC in running_time of a system being registered".to_string());
+        }
+        RunningTime::Average
+    }
+    fn accessor<'b>(&'b self) -> AccessorCow<'a, 'b, Self> {
+        if self.acc.mode == 5 {
+            std::panic::panic_any("INJECTED-PANIC in accessor() of a system being registered".to_string());
+        }
+        AccessorCow::Ref(&self.acc)
+    }
+}
+
+fn item_access(it: &Item) -> Option<Access> {
+    match it {
+        Item::Sys(s) => Some(Access::of(&s.reads, &s.writes)),
+        Item::Batch(b) => Some(b.access()),
+        _ => None,
+    }
+}
+
+/// A registration attempt that panics (ill-formed call, or the system's own code fails while
+/// the builder inspects it), caught; the builder is used further. `items[idx]` is the attempt.
+/// Returns true if the call panicked.
+pub fn failed_attempt(b: &mut DispatcherBuilder<'static, 'static>, items: &[Item], idx: usize, kind: u8, ctx: &Arc<Ctx>) -> bool {
+    let earlier = &items[..idx.min(items.len())];
     let ghost = SysSpec { uid: 0, name: String::new(), deps: vec![], reads: vec![], writes: vec![], time: 3, kind: Kind::Dyn };
-    let dup: Option<String> = earlier.iter().rev().find_map(|x| match x {
+    // (neighbours are looked for nearby only: plans may hold very long runs of barriers)
+    let dup: Option<String> = earlier.iter().rev().take(64).find_map(|x| match x {
         Item::Sys(s) if !s.name.is_empty() => Some(s.name.clone()),
         Item::Batch(bb) if !bb.name.is_empty() => Some(bb.name.clone()),
         _ => None,
     });
-    let _ = std::panic::catch_unwind(std::panic::AssertUnwindSafe(|| match (kind, dup) {
+    let mode = kind & 15;
+    if mode >= 2 {
+        // declares, as writes, everything the next registration touches and, as reads, what the
+        // previous one touched: leftovers of the failed call would hit its neighbours
+        let next = items.iter().skip(idx + 1).take(16).find_map(item_access).unwrap_or_default();
+        let prev = earlier.iter().rev().take(16).find_map(item_access).unwrap_or_default();
+        let writes: Vec<ResourceId> = next.writes.iter().chain(next.reads.iter()).map(|s| s.rid()).collect();
+        let reads: Vec<ResourceId> = prev.writes.iter().chain(prev.reads.iter()).map(|s| s.rid()).filter(|r| !writes.contains(r)).collect();
+        let name = if kind & FAILED_NAMED != 0 { format!("ghost of attempt {}", idx) } else { String::new() };
+        let sys = BadSys { acc: BadAcc { reads, writes, mode } };
+        return std::panic::catch_unwind(std::panic::AssertUnwindSafe(|| b.add(sys, &name, &[]))).is_err();
+    }
+    std::panic::catch_unwind(std::panic::AssertUnwindSafe(|| match (mode, dup) {
         (1, Some(name)) => b.add(HSys::new(&ghost, ctx), &name, &[]),
         _ => b.add(HSys::new(&ghost, ctx), "never registered", &["no such dependency"]),
-    }));
+    }))
+    .is_err()
 }
 
 /// Registers one item (used directly by C18/C20 which watch every single call).
